@@ -152,7 +152,12 @@ func runC19(c *mon.Ctx) {
 		}
 		w := NewWorld(base)
 		signer := w.IdP[2]
+		sim.WideBlankTail = k%5 == 3 // every fifth case: SP certificates whose last octet is a white-space character
 		ksp := NewKeyedSP(base, kc, signer)
+		if sim.WideBlankTail {
+			sim.WideBlankTail = false
+			c.Count("sp-certificates-ending-in-a-white-space-octet", 1)
+		}
 		ksp.Clk.Set(now)
 		sp := ksp.SP
 		if r.IntN(4) == 0 {
